@@ -32,6 +32,9 @@ META = {
     'assumptions': ['field names and keys are ASCII in the case-sensitive functions (non-ASCII letters are outside the model)'],
 }
 
+# --- lead: algorithm-level source tie mentioned in the technique (kept separate so the builder's text stays intact)
+META['technique'] = META['technique'] + ' + translation of object_path.split_object_path and string_conv.possible_json_keys / normalize from the current source text into Gallina, proved equal to the hand-written model on every run (tie T for algorithms)'
+
 ALPHA = 'abB1_- A'
 CASINGS = ['Camel', 'Pascal', 'Kebab', 'UpperKebab', 'UpperSnake', 'Screaming']
 
